@@ -274,6 +274,15 @@ theorem fiber_iadd_eq_add_partial [Add ν] (dflt : ν) (hr : ∀ x : ν, x + dfl
     · simp [hx, hy, hr]
   · simp [hy]
 
+/-- **`a += b` = `a + b` for integer payloads with the usual default 0**, any depth, any
+    coordinate type, no side condition beyond well-formedness: the instance of
+    `fiber_iadd_eq_add_partial` the campaigns live in (`x + 0 = x`). -/
+theorem fiber_iadd_eq_add_int_zero (d : Nat) (a b : Tree κ Int (d + 1)) (ha : WF (d + 1) a)
+    (hb : WF (d + 1) b) (p : List κ) :
+    denseAt (0 : Int) (d + 1) (iaddT 0 (d + 1) a b) p =
+      denseAt 0 (d + 1) (addT 0 0 (d + 1) a b) p :=
+  fiber_iadd_eq_add_partial (0 : Int) Int.add_zero d a b ha hb p
+
 /-! ### `*=` with a fiber -/
 
 /-- **In-place product = value-returning product.** `a *= b` leaves `a` with the dense view
@@ -638,6 +647,8 @@ example : ∀ p : List Int, p.length = 2 → denseAt (0 : Int) 2 (saddT 0 5 2 [6
     if inGridB [6, 5] p = true then 5 + denseAt 0 2 exD p else 0 :=
   fun p hp => fiber_scalar_add_spec 0 5 1 [6, 5] exD p hp rfl
 -- integer instances, with a non-zero default as well
+example : ∀ p, denseAt (0 : Int) 2 (iaddT 0 2 exD exD) p = denseAt 0 2 (addT 0 0 2 exD exD) p :=
+  fiber_iadd_eq_add_int_zero 1 exD exD exD_WF exD_WF
 example : ∀ c, denseAt (7 : Int) 1 (leafFiber (ismulF 7 5 exA0)) [c] =
     denseAt 7 1 (leafFiber (smulF 7 5 exA0)) [c] :=
   fiber_scalar_imul_eq_mul_int 7 5 exA0 exA0_sorted
